@@ -310,12 +310,15 @@ pub struct RecCollector {
     /// metadata name prefix that the collector always lets through and never logs
     /// (the harness's own parent spans)
     pub registrations: AtomicU64,
+    /// the run-time switch of the two `sometimes` configurations (starts as the configuration
+    /// says; the driver flips it between invocations of one callsite)
+    pub dyn_on: std::sync::atomic::AtomicBool,
 }
 pub const PARENT_NAME: &str = "c10_parent";
 
 impl RecCollector {
     pub fn new(cfg: Cfg) -> Self {
-        RecCollector { cfg, log: Mutex::new(vec![]), next: AtomicU64::new(1), registrations: AtomicU64::new(0) }
+        RecCollector { cfg, log: Mutex::new(vec![]), next: AtomicU64::new(1), registrations: AtomicU64::new(0), dyn_on: std::sync::atomic::AtomicBool::new(matches!(cfg, Cfg::DynOn)) }
     }
     pub fn take(&self) -> Vec<Got> {
         std::mem::take(&mut *self.log.lock().unwrap())
@@ -343,9 +346,10 @@ impl Collect for Shared {
             field_names: m.fields().iter().map(|f| f.name().to_string()).collect(),
         });
         match self.0.cfg {
-            Cfg::Always | Cfg::DynOn | Cfg::Cap(_) => true,
+            Cfg::Always | Cfg::Cap(_) => true,
+            Cfg::DynOn | Cfg::DynOff => self.0.dyn_on.load(Ordering::SeqCst),
             // a collector that answered `never` is consistent when it also says no here
-            Cfg::Never | Cfg::DynOff => false,
+            Cfg::Never => false,
         }
     }
     fn max_level_hint(&self) -> Option<LevelFilter> {
